@@ -163,6 +163,24 @@ fn gen(r: &mut Rng, tier: &Tier, out: &mut Vec<String>) {
             out.push(format!("{} P {}:{}:{}{} E 4:0a000001 4:0a000002 {} {}", m, side, a, b, any, sp, dp));
         }}
     }}}}}
+    // overlapping / nested CIDR blocks in both listing orders, address inside the wide block only
+    for (p1, p2) in [(24u32, 8u32), (8, 24), (32, 0), (0, 32), (16, 17), (17, 16), (31, 30), (8, 8)] {
+        for base in [0x0A00_0000u32, 0x0000_0000, 0xC0A8_0100] {
+            for x in [base, base ^ 1, base ^ 0x0001_0203, base ^ 0x0100_0000, base ^ 0x8000_0000, base ^ 0x0000_0100] {
+                for side in ["", " so", " do"] { for m in ["A", "D"] {
+                    out.push(format!("{} N n:4:{:08x}/{} n:4:{:08x}/{}{} E 4:{:08x} 4:{:08x} 1 2", m, base, p1, base, p2, side, x, x ^ 0x4000_0000));
+                }}
+            }
+        }
+    }
+    for (p1, p2) in [(64u32, 32u32), (32, 64), (128, 0), (0, 128), (127, 126), (48, 48)] {
+        let base: u128 = 0x2001_0db8_0000_0000_0000_0000_0000_0000;
+        for x in [base, base ^ 1, base ^ (1u128 << 70), base ^ (1u128 << 100), base ^ (1u128 << 127)] {
+            for m in ["A", "D"] {
+                out.push(format!("{} N n:6:{:032x}/{} n:6:{:032x}/{} E 6:{:032x} 6:{:032x} 1 2", m, base, p1, base, p2, x, x ^ (1u128 << 120)));
+            }
+        }
+    }
     // every prefix length against addresses differing in exactly one bit
     for p in 0..=32u32 { for bit in [0u32, 1, 7, 8, 15, 16, 23, 24, 30, 31] {
         let net: u32 = 0xC0A8_0101; let x = net ^ (1u32 << (31 - bit));
